@@ -47,7 +47,7 @@ impl From<&[u8]> for Event {
             Event {
                 time: event.time,
                 ty: EventType::Axis(event.number),
-                value: -event.value,
+                value: event.value.saturating_neg(),
             }
         } else if event.ty == JS_EVENT_INIT | JS_EVENT_TYPE_BUTTON {
             Event {
@@ -59,7 +59,7 @@ impl From<&[u8]> for Event {
             Event {
                 time: event.time,
                 ty: EventType::AxisInit(event.number),
-                value: -event.value,
+                value: event.value.saturating_neg(),
             }
         } else {
             unimplemented!();
